@@ -56,6 +56,7 @@ class Interp(ExprMixin):
         self.lc_taint = {}           # key -> dict
         self.tainted_loops = {}
         self.public_loops = {}
+        self.backend_attrs = {}
         self.call_records = {}
         self.div_sites = {}
         self._cur = None
